@@ -83,6 +83,9 @@ VISIT_LAYOUTS = ("visit", "joint", "covariate")
 
 MAL_VISIT = ["dup-exact", "dup-rounded", "age-nan", "age-inf", "age-neginf", "age-string", "value-string", "value-inf", "value-neginf",
              "no-id-column", "no-time-column"]
+# multi-cell infinities (two drawn rows): +inf and -inf in the same feature column (their sum is NaN, not inf), optionally with
+# a further NaN cell in that column; controls: two infinities of the same sign in one column, both signs in different columns
+MAL_MULTI_INF = ["value-inf-mixed-signs", "value-inf-several-same-sign", "value-inf-both-signs-different-columns"]
 MAL_ID = ["id-nan", "id-empty", "id-negative", "id-float", "id-mixed"]
 MAL_EVENT_COMMON = (["event-time-zero", "event-time-negative", "event-time-nan", "event-time-inf", "event-code-fraction"]
                     + ([] if EXCLUDE_D2 else ["event-code-nan"]) + ([] if EXCLUDE_D3 else ["event-code-negative"]))
@@ -92,17 +95,18 @@ MAL_JOINT = (["event-disagree-time", "event-disagree-code", "event-before-last-v
              + ([] if EXCLUDE_D2 else ["event-code-nan-partial"]))
 MAL_EVENT_ONLY = ["event-duplicate-id", "no-id-column"]
 MAL_COV = ["cov-nan", "cov-fraction", "cov-varying", "cov-constant"]
-ALL_MAL = sorted(set(MAL_VISIT + MAL_ID + MAL_EVENT_COMMON + MAL_JOINT + MAL_EVENT_ONLY + MAL_COV))
+ALL_MAL = sorted(set(MAL_VISIT + MAL_MULTI_INF + MAL_ID + MAL_EVENT_COMMON + MAL_JOINT + MAL_EVENT_ONLY + MAL_COV))
 
 REQUIRED_CLASSES = {
     "layout:visit": 0.08, "layout:joint": 0.08, "layout:covariate": 0.08, "layout:event": 0.02,
-    "valid": 0.3, "malformed": 0.15, "nontrivial": 0.1, "nontrivial-valid": 0.03,
+    "valid": 0.2, "malformed": 0.15, "nontrivial": 0.1, "nontrivial-valid": 0.03,
     "interleaved": 0.05, "unsorted-ages": 0.05, "has-nan": 0.08, "all-nan-visit": 30, "feature-missing-for-individual": 30,
     "single-visit-individual": 100, "dropped-individual": 5, "roundtrip-reorders": 100, "form:index": 100, "form:id-index": 50,
     "id:int": 50, "id:categorical": 50, "id:unicode": 50, "ages:micro": 100, "ages:int-dtype": 20, "censored-before-last-visit": 10,
     "competing-events": 30,
     **{f"mal:{k}": 3 for k in ALL_MAL},
     "mal:event-time-nan-partial": 10,
+    **{f"mal:{k}": 30 for k in MAL_MULTI_INF},
     **({} if EXCLUDE_D2 else {"mal:event-code-nan-partial": 10}),
     **({} if EXCLUDE_D4 else {"categorical-unused-category": 20, "categorical-dropped-individual": 3}),
 }
@@ -231,6 +235,10 @@ def mal_kinds(case):
     kinds = []
     if lay in VISIT_LAYOUTS:
         kinds += MAL_VISIT
+        if len(case["rows"]) >= 2:
+            kinds += MAL_MULTI_INF[:2]
+            if len(case["features"]) >= 2:
+                kinds.append(MAL_MULTI_INF[2])
     kinds += ["id-nan", "id-float"]
     if len({_key(r[0]) for r in case["rows"]}) >= 2:
         kinds.append("id-mixed")  # one individual's identifier gets another type: needs a second individual to be a mixture
@@ -297,6 +305,23 @@ def apply_mal(case):
         rows[r][1] = {"age-nan": float("nan"), "age-inf": inf, "age-neginf": -inf, "age-string": "67y"}[kind]
     elif kind in ("value-string", "value-inf", "value-neginf"):
         rows[r][2 + mal["j"] % nf] = {"value-string": "n/a", "value-inf": inf, "value-neginf": -inf}[kind]
+    elif kind in MAL_MULTI_INF:
+        r1 = mal["r"] % R
+        r2 = (r1 + 1 + mal["pos"] % (R - 1)) % R  # a second, different row (same or another individual)
+        c1 = mal["j"] % nf
+        sgn = -1.0 if (mal["ind"] // 2) % 2 else 1.0
+        if kind == "value-inf-mixed-signs":
+            rows[r1][2 + c1], rows[r2][2 + c1] = sgn * inf, -sgn * inf
+            if mal["ind"] % 2 and R >= 3:  # variant: a further cell of that column is NaN
+                others = [k for k in range(R) if k not in (r1, r2)]
+                rows[others[(mal["j"] // nf) % len(others)]][2 + c1] = None
+        elif kind == "value-inf-several-same-sign":
+            rows[r1][2 + c1], rows[r2][2 + c1] = sgn * inf, sgn * inf
+        else:
+            c2 = (c1 + 1 + (mal["j"] // nf) % (nf - 1)) % nf
+            if mal["ind"] % 2:
+                r2 = r1  # variant: both cells on the same row
+            rows[r1][2 + c1], rows[r2][2 + c2] = sgn * inf, -sgn * inf
     elif kind == "no-id-column":
         drop = ["ID"]
     elif kind == "no-time-column":
@@ -883,6 +908,19 @@ def shard_exhaustive(shard: int = 0):
         R = len(base["rows"])
         n_ids = len({_key(r[0]) for r in base["rows"]})
         for kind in mal_kinds(base):
+            if kind in MAL_MULTI_INF:  # every unordered pair of rows x column x sign order (x NaN / same-row variant)
+                if base["id_kind"] != "s" or base["form"] != "columns":
+                    continue  # the pair sweep is run once per layout (identifier kind and table form play no role here)
+                nf = len(base["features"])
+                for r1 in range(R):
+                    for r2 in range(r1 + 1, R):
+                        for j in range(nf):
+                            for i in (range(4) if kind != "value-inf-several-same-sign" else (0, 2)):
+                                c = copy.deepcopy(base)
+                                c["mal"] = dict(kind=kind, r=r1, j=j, ind=i, pos=r2 - r1 - 1)
+                                body_mal(col, c, sub="malformed-exhaustive")
+                                n += 1
+                continue
             n_r = R if kind in ("dup-exact", "dup-rounded", "age-nan", "age-inf", "age-neginf", "age-string", "value-string", "value-inf",
                                 "value-neginf", "id-nan", "id-empty", "cov-nan", "cov-varying", "event-duplicate-id") else 1
             n_i = n_ids if kind.startswith(("event-", "cov-fraction", "id-negative", "id-mixed")) else 1
